@@ -4,7 +4,6 @@
 From stdpp Require Import gmap sorting.
 From Coq Require Import NArith ZArith String.
 From RV Require Import Lib.Hex Lib.SipHash Gen.KeyTable.
-Local Open Scope string_scope.
 Local Open Scope N_scope.
 
 Notation key := (list N) (only parsing).
@@ -67,6 +66,7 @@ Inductive req (P : Type) : Type :=
 Arguments Generic {P}. Arguments FastGet {P}. Arguments FastSet {P}. Arguments PipeGet {P}.
 Arguments PipeSet {P}.
 
+Local Open Scope string_scope.
 Definition tag_of {P} (c : cmd P) : string :=
   match c with
   | CPing _ => "Ping" | CFlush false => "FlushDb" | CFlush true => "FlushAll" | CKeys _ => "Keys"
@@ -74,6 +74,8 @@ Definition tag_of {P} (c : cmd P) : string :=
   | CDel _ => "Del" | CExists _ => "Exists" | CBatchGet _ => "BatchGet" | CBatchSet _ => "BatchSet"
   | COp tag _ _ => tag
   end.
+
+Local Close Scope string_scope.
 
 (* Command::get_keys *)
 Definition cmd_keys {P} (c : cmd P) : list key :=
@@ -348,6 +350,7 @@ End Dispatcher.
 (* ---------------------------------------------------------------- the key table and the model
    The classification SingleHome relies on, written out by hand: variants that may name two or
    more keys and have no fan-out arm ... *)
+Local Open Scope string_scope.
 Definition multi_key_tags : list string :=
   ["MSetNx"; "BatchSet"; "BatchGet"; "Sort"; "RPopLPush"; "LMove"; "Watch"; "Eval"; "EvalSha";
    "Rename"; "RenameNx"].
